@@ -341,10 +341,27 @@ def run_addr(ctx, case):
         ctx.fail_exc('addr|open', e, case)
         return
     nt = False
-    for (start, size) in case['queries']:
+    suspended = []      # partially consumed generators stay alive (a caller may abandon them at any point)
+    for q in case['queries']:
+        start, size = q[0], q[1]
+        mode = q[2] if len(q) > 2 else 0
         end = start + size
         exp = [start - p['p_vaddr'] + p['p_offset'] for p in R['ph']
                if p['p_type'] == 1 and p['p_vaddr'] <= start and end <= p['p_vaddr'] + p['p_filesz']]
+        if mode:
+            # the idiom of the library's own callers: take the first offset only (next(..., None)) and drop the generator
+            try:
+                it = ef.address_offsets(start, size)
+                first = next(it, None)
+            except Exception as e:  # noqa
+                ctx.fail_exc('addr|address_offsets|first-only', e, case)
+                continue
+            if mode == 2:
+                suspended.append(it)
+            ctx.count('addr.query.first-only')
+            if first != (exp[0] if exp else None):
+                ctx.fail('addr|address_offsets|first-only', 'range [%#x,+%d): expected first offset %r got %r' % (start, size, exp[:1], first), case)
+            continue
         try:
             got = list(ef.address_offsets(start, size))
         except Exception as e:  # noqa
@@ -359,8 +376,6 @@ def run_addr(ctx, case):
         ctx.count('addr.query.' + ('boundary' if touching else ('hit' if exp else 'miss')))
         if len(exp) >= 2:
             ctx.count('addr.query.multi')
-    if size == 1 and len(case['queries']) and True:
-        pass
     ctx.case((data, case['queries']), nt, {'kind': 'addr', 'segments': [(p['p_type'], p['p_vaddr'], p['p_filesz'], p['p_memsz']) for p in R['ph']],
                                           'queries': case['queries'][:6]})
 
@@ -391,6 +406,8 @@ def build_addr(ch, tier):
                 queries.append([s, z])
     for _ in range(ch.int(0, 6)):
         queries.append([base + ch.int(0, 0x30000), ch.choice([1, 1, 4, 8, 0x100, ch.int(0, 0x2000)])])
+    # consumption mode per query (0 = exhaust, 1 = first item only, 2 = first item only and keep the generator alive), random order
+    queries = ch.perm([q + [ch.choice([0, 0, 0, 1, 2])] for q in queries])
     m = {'cls': cls, 'le': le, 'e_type': 2, 'sections': [], 'segments': segs, 'tail': 0x40,
          'phentsize_extra': ch.choice([0, 0, 8])}
     return {'k': 'addr', 'model': m, 'queries': queries}
